@@ -113,6 +113,36 @@ case("s02-generator-finally", "generator return() runs finally; for-of closes th
             funcs=[func(name="g", kind="FGenerator", body=[("STry", [("SYield", None, None, num(1), False), ("SYield", None, None, num(2), False), ("SYield", None, None, num(3), False)],
                                                            None, [pr(s("cleanup"))])])]))
 
+# regression sentinels for CreatePerIterationEnvironment (they agree on the unchanged tree)
+def arrow(params, e):
+    return func(kind="FArrow", params=[(pid(x), None) for x in params], expr_body=e)
+
+
+I = ident("i")
+case("s03-for-let-initializer-closures", "closures created in a for-let initializer see the initializer's environment, not the first iteration's copy (ForBodyEvaluation step 2)",
+     script([("SFor", ("FIDecl", "KLet", [(pid("i"), num(0)), (pid("get"), ("EFunc", 0)), (pid("set"), ("EFunc", 1))]),
+              ("EBinary", "BLt", I, num(3)), ("EUpdate", False, True, I),
+              ("SBlock", [("SExpr", call(ident("set"), ("EBinary", "BAdd", I, num(10)))), pr(I, call(ident("get")))]))],
+            funcs=[arrow([], I), arrow(["v"], ("EAssign", pid("i"), ident("v")))]))
+case("s04-for-let-initializer-closure-in-function", "the same inside a function (register-resident candidates), with per-iteration closures and a body write",
+     main_prog([let("fs", ("EArray", []), "KConst"),
+                ("SFor", ("FIDecl", "KLet", [(pid("i"), num(0)), (pid("get"), ("EFunc", 0))]), ("EBinary", "BLt", I, num(3)), ("EUpdate", False, True, I),
+                 ("SBlock", [("SExpr", call(member(ident("fs"), "push"), ("EFunc", 1))), pr(I, call(ident("get"))),
+                             ("SIf", ("EBinary", "BSEq", I, num(0)), ("SExpr", ("EOpAssign", "BAdd", I, num(0))), None)])),
+                pr(call(member(call(member(ident("fs"), "map"), ("EFunc", 2)), "join")))],
+               funcs=[arrow([], I), arrow([], I), arrow(["f"], call(ident("f")))]))
+case("s05-closures-in-test-update-and-for-of-head", "closures created in the test / update expressions and in a for-of destructuring default capture the right per-iteration binding",
+     script([let("fs", ("EArray", []), "KConst"),
+             ("SFor", ("FIDecl", "KLet", [(pid("i"), num(0))]),
+              ("ESeq", call(member(ident("fs"), "push"), ("EFunc", 0)), ("EBinary", "BLt", I, num(2))),
+              ("ESeq", call(member(ident("fs"), "push"), ("EFunc", 1)), ("EUpdate", False, True, I)),
+              ("SBlock", [pr(s("i"), I)])),
+             pr(call(member(call(member(ident("fs"), "map"), ("EFunc", 2)), "join"))),
+             ("SForOf", ("FHDecl", "KLet", ("PArr", [(pid("a"), None), (pid("f"), ("EFunc", 3))], None)),
+              ("EArray", [("AElem", ("EArray", [("AElem", num(1))])), ("AElem", ("EArray", [("AElem", num(2))]))]),
+              ("SBlock", [("SExpr", ("EOpAssign", "BAdd", ident("a"), num(10))), pr(ident("a"), call(ident("f")))]))],
+            funcs=[arrow([], I), arrow([], I), arrow(["f"], call(ident("f"))), arrow([], ident("a"))]))
+
 if __name__ == "__main__":
     out = os.path.join(os.path.dirname(HERE), "corpus", "C01")
     os.makedirs(out, exist_ok=True)
